@@ -47,6 +47,7 @@ type serviceType struct {
 	keepAliveWaitGroup *helpers.ThreadSafeWaitGroup
 	mutex              sync.Mutex
 	nextRequestID      uint32
+	stdinIsClosed      bool // Guarded by the mutex
 }
 
 func (service *serviceType) getActiveBuild(key int) *activeBuild {
@@ -158,6 +159,19 @@ func runService(sendPings bool) {
 		// Move the remaining partial packet to the end to avoid reallocating
 		stream = append(stream[:0], bytes...)
 	}
+
+	// No more responses can arrive now that stdin is closed. Fail all requests
+	// to the host that are still waiting for a response so that nothing blocks
+	// forever (e.g. a build inside a plugin callback, or the ping loop, which
+	// must keep writing to stdout to find out whether the host is still there).
+	service.mutex.Lock()
+	service.stdinIsClosed = true
+	callbacks := service.callbacks
+	service.callbacks = make(map[uint32]responseCallback)
+	service.mutex.Unlock()
+	for _, callback := range callbacks {
+		go callback(nil)
+	}
 }
 
 // Each packet added to "outgoingPackets" must also add to the wait group
@@ -176,12 +190,17 @@ func (service *serviceType) sendRequest(request interface{}) interface{} {
 		result <- response
 		close(result)
 	}
+	var stdinIsClosed bool
 	id = func() uint32 {
 		service.mutex.Lock()
 		defer service.mutex.Unlock()
 		id := service.nextRequestID
 		service.nextRequestID++
-		service.callbacks[id] = callback
+		if service.stdinIsClosed {
+			stdinIsClosed = true
+		} else {
+			service.callbacks[id] = callback
+		}
 		return id
 	}()
 
@@ -190,6 +209,9 @@ func (service *serviceType) sendRequest(request interface{}) interface{} {
 		isRequest: true,
 		value:     request,
 	}))
+	if stdinIsClosed {
+		return nil
+	}
 	return <-result
 }
 
